@@ -82,10 +82,13 @@ def run_traces(ctx, n, err_rate, salt=0):
 
 def run(ctx):
     # 1. model checking: the layers of the specification agree on every enumerated template
-    #    (MC config, bound one below the replay's; -coverage is unusable on this spec, see tmpl_driver.mc_plain);
-    #    the generation run below checks the same invariants over every replayed template as well.
-    D.mc_plain(ctx, "TemplateLang", "MC_TemplateLang.cfg", {"Fams": fams(FAMS), "Grow": ctx.pick(0, 1)},
-               timeout=ctx.pick(400, 1500))
+    #    The generation run below *is* the model-checking run of the quick tier: Gen_TemplateLang.cfg carries the
+    #    INVARIANT lines of MC_TemplateLang.cfg and TLC checks them on every template it dumps for the replay.
+    #    The thorough tier additionally runs the MC config (no dump) one token deeper than the replayed set for
+    #    the families where that is affordable.  (-coverage is unusable on this spec, see tmpl_driver.mc_plain.)
+    if not ctx.quick:
+        D.mc_plain(ctx, "TemplateLang", "MC_TemplateLang.cfg", {"Fams": fams(["lex", "control", "tryloop", "apply"]), "Grow": 3},
+                   timeout=1500)
     # 2. spec -> code: every enumerated template through the real compiler
     n = run_family_replay(ctx, FAMS, ctx.pick(1, 2))
     ctx.cov["exhaustive"] = True
